@@ -463,7 +463,7 @@ theorem prepareS_nofence (x : PipelineX.Exts) (cfg : Pipeline.Cfg) (html : List 
     prepareS x cfg html src =
       if (x.admonition && PipelineX.admNonAscii (Normalize.normalize cfg.tab src)) = true then .ood
       else .ok (Extract.extract (Normalize.normalize cfg.tab src), html) := by
-  simp only [prepareS, hf, Bool.false_eq_true, if_false]
+  simp only [prepareS, prepareST, hf, Bool.false_eq_true, if_false]
 
 /-! ### the log after a conversion without the footnotes extension -/
 
